@@ -4,7 +4,7 @@
 EXTENDS RuleFamilies
 
 VARIABLE sch
-Init == sch \in Schemas
+Init == sch \in Schemas \cup BigSchemas
 Next == UNCHANGED sch
 Spec == Init /\ [][Next]_sch
 Code(v) == IF v = "accept" THEN 1 ELSE IF v = "reject" THEN 0 ELSE 2
